@@ -12,8 +12,11 @@ CVC5 = "/usr/bin/cvc5"
 
 
 class Prover:
-    def __init__(self, timeout_ms=60000, cvc5_timeout_s=120, use_cvc5=True):
+    def __init__(self, timeout_ms=60000, cvc5_timeout_s=120, use_cvc5=True, int_first=False,
+                 int_timeout_ms=20000):
         self.timeout_ms = timeout_ms
+        self.int_first = int_first          # try the exact integer-arithmetic translation first
+        self.int_timeout_ms = int_timeout_ms
         self.cvc5_timeout_s = cvc5_timeout_s
         self.use_cvc5 = use_cvc5 and os.path.exists(CVC5)
         self.stats = dict(z3_unsat=0, z3_sat=0, z3_unknown=0, trivial=0, cvc5_unsat=0, cvc5_sat=0,
@@ -29,6 +32,16 @@ class Prover:
             self.stats["trivial"] += 1
             return "unsat", None
         self.stats["queries"] += 1
+        if self.int_first:
+            t0 = time.time()
+            v, m = prove_as_int(pc, c, self.int_timeout_ms)
+            self.stats["solver_s"] += time.time() - t0
+            self.stats["int_" + v] = self.stats.get("int_" + v, 0) + 1
+            if v == "unsat":
+                return "unsat", None
+            if v == "sat":
+                return "sat", m
+            # unknown / unsupported operator: the bit-vector portfolio decides
         t0 = time.time()
         s = z3.SolverFor("QF_BV")
         s.set("timeout", self.timeout_ms)
@@ -81,6 +94,10 @@ def _decls(smt):
 
 def run_cvc5(solver, extra, timeout_s):
     smt = solver.to_smt2()
+    # z3 prints its internal total division operators (bvudiv_i, bvsrem_i ...: the SMT-LIB 2.6
+    # operators with the standard value for a zero divisor) which other solvers do not parse;
+    # they denote the same functions as the standard names.
+    smt = re.sub(r"\b(bvudiv|bvsdiv|bvurem|bvsrem|bvsmod)_i\b", r"\1", smt)
     decls = _decls(smt)
     smt = "(set-logic QF_BV)\n(set-option :produce-models true)\n" + \
         smt.replace("(check-sat)", "(check-sat)")
@@ -124,3 +141,126 @@ def run_cvc5(solver, extra, timeout_s):
     if "(error" in out or p.returncode not in (0,):
         return "error", {}
     return "unknown", {}
+
+
+# ---------------------------------------------------------------------------------------------
+# Exact translation of the linear fragment of QF_BV (signed comparisons, +, -, unary -, ite,
+# constants, boolean structure) into integer arithmetic.  Every bit-vector term is represented
+# by the integer equal to its SIGNED value; + and - wrap explicitly (one conditional correction
+# is exact because both operands are in range), variables are constrained to the signed range.
+# Hence the integer formula is equisatisfiable with the bit-vector one: 'unsat' transfers, and a
+# model is turned into a bit-vector model by pinning the variables (as for cvc5).  Order-only
+# obligations (interval reasoning) that are erratic when bit-blasted become trivial for simplex.
+class _Unsupported(Exception):
+    pass
+
+
+def _bv_to_int(formulas):
+    memo = {}
+    bvvars = {}
+
+    def wrap(t, W):
+        half, full = 1 << (W - 1), 1 << W
+        return z3.If(t >= half, t - full, z3.If(t < -half, t + full, t))
+
+    def tr(e):
+        k = e.get_id()
+        r = memo.get(k)
+        if r is None:
+            r = tr1(e)
+            memo[k] = r
+        return r
+
+    def tr1(e):
+        d = e.decl().kind()
+        ch = e.children()
+        if z3.is_bv(e):
+            W = e.size()
+            if z3.is_bv_value(e):
+                return z3.IntVal(e.as_signed_long())
+            if d == z3.Z3_OP_UNINTERPRETED and not ch:
+                name = e.decl().name()
+                bvvars[name] = W
+                return z3.Int("int!" + name)
+            if d == z3.Z3_OP_BADD:
+                r = tr(ch[0])
+                for c in ch[1:]:
+                    r = wrap(r + tr(c), W)
+                return r
+            if d == z3.Z3_OP_BSUB:
+                r = tr(ch[0])
+                for c in ch[1:]:
+                    r = wrap(r - tr(c), W)
+                return r
+            if d == z3.Z3_OP_BNEG:
+                return wrap(-tr(ch[0]), W)
+            if d == z3.Z3_OP_BMUL and len(ch) == 2 and (z3.is_bv_value(ch[0]) or z3.is_bv_value(ch[1])):
+                half, full = 1 << (W - 1), 1 << W
+                return (tr(ch[0]) * tr(ch[1]) + half) % full - half
+            if d == z3.Z3_OP_ITE:
+                return z3.If(tr(ch[0]), tr(ch[1]), tr(ch[2]))
+            raise _Unsupported(str(e.decl()))
+        if z3.is_bool(e):
+            if z3.is_true(e) or z3.is_false(e):
+                return e
+            if d == z3.Z3_OP_UNINTERPRETED and not ch:
+                return e
+            if d == z3.Z3_OP_AND:
+                return z3.And(*[tr(c) for c in ch])
+            if d == z3.Z3_OP_OR:
+                return z3.Or(*[tr(c) for c in ch])
+            if d == z3.Z3_OP_NOT:
+                return z3.Not(tr(ch[0]))
+            if d == z3.Z3_OP_IMPLIES:
+                return z3.Implies(tr(ch[0]), tr(ch[1]))
+            if d == z3.Z3_OP_XOR:
+                return z3.Xor(tr(ch[0]), tr(ch[1]))
+            if d == z3.Z3_OP_ITE:
+                return z3.If(tr(ch[0]), tr(ch[1]), tr(ch[2]))
+            if d in (z3.Z3_OP_EQ, z3.Z3_OP_IFF) and len(ch) == 2:
+                return tr(ch[0]) == tr(ch[1])
+            if d == z3.Z3_OP_DISTINCT:
+                return z3.Distinct(*[tr(c) for c in ch])
+            if d == z3.Z3_OP_SLEQ:
+                return tr(ch[0]) <= tr(ch[1])
+            if d == z3.Z3_OP_SLT:
+                return tr(ch[0]) < tr(ch[1])
+            if d == z3.Z3_OP_SGEQ:
+                return tr(ch[0]) >= tr(ch[1])
+            if d == z3.Z3_OP_SGT:
+                return tr(ch[0]) > tr(ch[1])
+            raise _Unsupported(str(e.decl()))
+        raise _Unsupported(str(e.sort()))
+
+    out = [tr(f) for f in formulas]
+    for name, W in bvvars.items():
+        v = z3.Int("int!" + name)
+        out.append(z3.And(v >= -(1 << (W - 1)), v < (1 << (W - 1))))
+    return out, bvvars
+
+
+def prove_as_int(pc, c, timeout_ms=20000):
+    """'unsat' | 'sat' (+ z3 bit-vector model) | 'unknown' | 'unsupported' for  pc and not c"""
+    fs = list(pc) + [z3.Not(c)]
+    try:
+        ints, bvvars = _bv_to_int(fs)
+    except _Unsupported:
+        return "unsupported", None
+    s = z3.Solver()
+    s.set("timeout", timeout_ms)
+    s.add(*ints)
+    r = s.check()
+    if r == z3.unsat:
+        return "unsat", None
+    if r != z3.sat:
+        return "unknown", None
+    m = s.model()
+    s2 = z3.SolverFor("QF_BV")
+    s2.set("timeout", timeout_ms)
+    s2.add(*fs)
+    for name, W in bvvars.items():
+        val = m.eval(z3.Int("int!" + name), model_completion=True).as_long()
+        s2.add(z3.BitVec(name, W) == z3.BitVecVal(val, W))
+    if s2.check() == z3.sat:
+        return "sat", s2.model()
+    return "unknown", None
